@@ -73,6 +73,7 @@ func strataC12(tier string) [][]int32 {
 type c12Info struct {
 	Corruption string
 	Pos        int
+	leadLen    int // leading_bytes: how many foreign bytes precede the frame
 }
 
 func genC12(rc *RunCtx) (*C1, *c12Info, bool) {
@@ -184,6 +185,7 @@ func genC12(rc *RunCtx) (*C1, *c12Info, bool) {
 				lead[i] = []byte{0x00, 0xFF}[(int(lead[i])>>4)&1]
 			}
 		}
+		info.leadLen = len(lead)
 		bad = append(lead, bad...)
 	case 8: // the two CRC bytes arrive in the wrong order (a device or gateway that appends the CRC high byte first)
 		info.Pos = n - 2
@@ -205,6 +207,14 @@ func genC12(rc *RunCtx) (*C1, *c12Info, bool) {
 	// 5-byte prefixes are where the early exception shortcut looks: over-weight a cut there
 	if len(bad) > 5 && t.ChooseAs("cut5", 3) >= 2 {
 		sc.Chunks = []Chunk{{N: 5, Gap: gapOf(t)}, {N: len(bad) - 5, Gap: gapOf(t)}}
+	}
+	if !t.Has("pos") && len(sc.Chunks) >= 2 && t.Chance(1, 8) {
+		// a long pause inside the reply (a device that stalls mid-frame, a radio link): tens to hundreds of milliseconds
+		sc.Chunks[1+t.Choose(len(sc.Chunks)-1)].Gap = time.Duration(55+t.Choose(200)) * time.Millisecond
+	}
+	if ck == 7 && !t.Has("pos") && len(bad) > info.leadLen && info.leadLen > 0 && t.Chance(1, 3) {
+		// the foreign bytes arrive on their own, the frame after a pause
+		sc.Chunks = []Chunk{{N: info.leadLen, Gap: gapOf(t)}, {N: len(bad) - info.leadLen, Gap: time.Duration(t.Choose(250)) * time.Millisecond}}
 	}
 	sc.ReadTimeout = []time.Duration{10 * time.Millisecond, 5 * time.Millisecond, 30 * time.Millisecond, 100 * time.Millisecond}[t.Choose(4)]
 	if need := 2*totalGap(sc.Chunks) + 5*time.Millisecond; sc.ReadTimeout < need {
